@@ -703,3 +703,601 @@ Proof.
         destruct (seqT (map seg_test (map SOpt (n :: ns'))) r); congruence.
       * now apply opt_tail_good.
 Qed.
+
+Lemma firstn_in_psubsets : forall ns j, In (firstn j ns) (psubsets ns).
+Proof.
+  induction ns as [|n ns IH]; intros j.
+  - destruct j; now left.
+  - destruct j as [|j]; cbn [firstn psubsets].
+    + apply in_or_app. right. apply psubsets_nil_in.
+    + apply in_or_app. left. apply in_map. apply IH.
+Qed.
+
+(** what a successful chain binds is what the pattern of one of its expansions binds *)
+Lemma chain_opt_params :
+  forall cores L0 ns q m rem ps,
+    Forall (fun x => is_leaf x = true) L0 -> Forall (fun x => is_sopt x = false) L0 ->
+    wf_flat (flat_map gen_path (L0 ++ map SOpt ns)) = true ->
+    slash_static_flat (flat_map gen_path (L0 ++ map SOpt ns)) = false ->
+    Forall (core_in cores) L0 -> Inv cores q ->
+    seqT (map seg_test (L0 ++ map SOpt ns)) q = TSome m rem ps ->
+    exists e, In e (expand_optionals (flat_map gen_path (L0 ++ map SOpt ns)))
+              /\ spre (toks e) q = Some (ps, rem).
+Proof.
+  intros cores L0 ns q m rem ps Hleaf Hnos Hwf Hss Hcores Hq HS.
+  set (A := flat_map gen_path L0).
+  assert (HA : existsb is_popt A = false) by (now apply gen_nosopt).
+  rewrite flat_map_app, gen_sopts in Hwf, Hss |- *. fold A in Hwf, Hss |- *.
+  assert (Hsub : forall S, In S (psubsets ns) ->
+            tame_chain (L0 ++ map SParam S) = true
+            /\ tproj (seqT (map seg_test (L0 ++ map SParam S)) q)
+               = Some (spre (toks (A ++ map PParam S)) q)).
+  { intros S HS0.
+    assert (Hg : flat_map gen_path (L0 ++ map SParam S) = A ++ map PParam S)
+      by (now rewrite flat_map_app, gen_sparams).
+    assert (Ht : tame_chain (L0 ++ map SParam S) = true).
+    { apply tame_from_flat.
+      + apply Forall_app. split; [exact Hleaf|]. clear. induction S; simpl; constructor; auto.
+      + rewrite Hg, existsb_app, HA. clear. induction S; auto.
+      + rewrite Hg. eapply wf_flat_sub; eauto.
+      + rewrite Hg. eapply ssf_sub; eauto. }
+    split; [exact Ht|]. rewrite <- Hg. apply (chain_spre cores); auto.
+    apply Forall_app. split; [exact Hcores|apply core_in_params]. }
+  rewrite map_app, seqT_app in HS.
+  destruct (seqT (map seg_test L0) q) as [| |m0 r ps0] eqn:E0; try discriminate.
+  (* the tail binds like a prefix of the optionals kept as params *)
+  assert (Hj : exists j, tproj (seqT (map seg_test (map SOpt ns)) r)
+                         = tproj (seqT (map seg_test (map SParam (firstn j ns))) r)).
+  { destruct ns as [|n ns']; [exists 0%nat; reflexivity|].
+    assert (Hin1 : In [n] (psubsets (n :: ns'))).
+    { cbn [psubsets]. apply in_or_app. left. apply in_map. apply psubsets_nil_in. }
+    destruct (Hsub [n] Hin1) as [Ht1 _]. cbn [map] in Ht1.
+    destruct (tame_app_inv cores n L0 Ht1 Hcores q m0 r ps0 Hq E0) as [Hb _].
+    now apply opt_tail_prefix. }
+  destruct Hj as [j Hj].
+  exists (A ++ map PParam (firstn j ns)). split.
+  - rewrite (expand_app_noopt _ _ HA), expand_popts. apply in_map. apply in_map.
+    apply firstn_in_psubsets.
+  - destruct (Hsub _ (firstn_in_psubsets ns j)) as [_ Hc].
+    rewrite map_app, seqT_app, E0 in Hc.
+    destruct (seqT (map seg_test (map SOpt ns)) r) as [| |m1 r1 p1]; try discriminate.
+    inversion HS; subst.
+    destruct (seqT (map seg_test (map SParam (firstn j ns))) r) as [| |m2 r2 p2];
+      cbn [tproj] in Hj; try discriminate.
+    injection Hj as <- <-. cbn [tproj] in Hc. now injection Hc as <-.
+Qed.
+
+(** ================================================================================
+    Part D' — the core statement for a forest, from any path at a component boundary
+    ================================================================================ *)
+Definition entry_good (q : bytes) (f : list pseg) : bool :=
+  existsb (flat_good q) (expand_optionals f).
+
+Lemma chains_decomp : forall rs, forallb route_ok rs = true ->
+  forall L, In L (chains rs) ->
+  exists L0 ns, L = L0 ++ map SOpt ns /\ Forall (fun x => is_sopt x = false) L0.
+Proof.
+  intros rs Hrs L HL. apply in_flat_map in HL. destruct HL as (r & Hr & HL).
+  rewrite forallb_forall in Hrs. eapply chain_decomp; eauto.
+Qed.
+
+Lemma route_ok_forest : forall rs, k_optional rs = false -> wf_tree rs = true ->
+  forallb route_ok rs = true.
+Proof.
+  intros rs Hk Hw. unfold k_optional in Hk. apply negb_false_iff in Hk. unfold wf_tree in Hw.
+  apply forallb_forall. intros r Hr. rewrite forallb_forall in Hk, Hw.
+  apply route_ok_of; auto.
+Qed.
+
+Section Core.
+  Variables (base : option bytes) (rs : list route) (q : bytes).
+  Hypothesis Hwt : wf_tree rs = true.
+  Hypothesis Hwf : wf_routes rs = true.
+  Hypothesis Hss : existsb slash_static_flat (gen_routes rs) = false.
+  Hypothesis Hopt : k_optional rs = false.
+  Hypothesis Hb : at_boundary q = true.
+  Hypothesis Hkb : kb (cores_of base rs) q = false.
+
+  Let Hok : forallb route_ok rs = true := route_ok_forest rs Hopt Hwt.
+
+  Lemma core_chain_facts : forall L, In L (chains rs) ->
+    exists L0 ns, L = L0 ++ map SOpt ns
+      /\ Forall (fun x => is_leaf x = true) L0 /\ Forall (fun x => is_sopt x = false) L0
+      /\ wf_flat (flat_map gen_path L) = true
+      /\ slash_static_flat (flat_map gen_path L) = false
+      /\ Forall (core_in (cores_of base rs)) L0.
+  Proof.
+    intros L HL. destruct (chains_decomp rs Hok L HL) as (L0 & ns & -> & Hn).
+    assert (Hin : In (flat_map gen_path (L0 ++ map SOpt ns)) (gen_routes rs))
+      by (rewrite gen_routes_chains; now apply in_map).
+    exists L0, ns. split; [reflexivity|].
+    pose proof (chains_leaves rs _ HL) as Hl. apply Forall_app in Hl. destruct Hl as [Hl _].
+    pose proof (cores_from_flat base rs _ HL) as Hc. apply Forall_app in Hc. destruct Hc as [Hc _].
+    repeat split; auto.
+    - unfold wf_routes in Hwf. rewrite forallb_forall in Hwf. now apply Hwf.
+    - eapply existsb_false_in; eauto.
+  Qed.
+
+  Lemma core_match_opt :
+    match_siblings rs 0 q <> NPanic
+    /\ is_yes (oproj (match_siblings rs 0 q)) = existsb (entry_good q) (gen_routes rs).
+  Proof.
+    pose proof (siblings_chains_ok rs Hok 0%nat q) as Hsib.
+    assert (Hch : forall L, In L (chains rs) ->
+              seqT (map seg_test L) q <> TPanic
+              /\ good q L = entry_good q (flat_map gen_path L)).
+    { intros L HL. destruct (core_chain_facts L HL) as (L0 & ns & -> & H1 & H2 & H3 & H4 & H5).
+      apply (chain_opt (cores_of base rs)); auto. split; assumption. }
+    assert (Hnp : Forall (fun L => seqT (map seg_test L) q <> TPanic) (chains rs)).
+    { apply Forall_forall. intros L HL. now destruct (Hch L HL). }
+    destruct (first_chain_existsb q _ Hnp) as [Hnopanic Hyes].
+    rewrite Hsib. split.
+    - intros Hc. rewrite Hc in Hsib. cbn [oproj] in Hsib. now rewrite <- Hsib in Hnopanic.
+    - rewrite Hyes, gen_routes_chains, existsb_map. apply existsb_ext_in. intros L HL.
+      now destruct (Hch L HL).
+  Qed.
+
+  (** the first table entry that matches wins, and the params are its pattern's bindings *)
+  Lemma core_first_wins : forall ch ps rem,
+    match_siblings rs 0 q = NYes ch ps rem ->
+    exists pre f post e,
+      gen_routes rs = pre ++ f :: post
+      /\ Forall (fun g => entry_good q g = false) pre
+      /\ In e (expand_optionals f)
+      /\ spre (toks e) q = Some (ps, rem) /\ rem_ok rem = true.
+  Proof.
+    intros ch ps rem Hm.
+    pose proof (siblings_chains_ok rs Hok 0%nat q) as Hsib. rewrite Hm in Hsib. cbn [oproj] in Hsib.
+    symmetry in Hsib. apply first_chain_first in Hsib.
+    destruct Hsib as (pre & L & post & m & Hls & Hpre & HS & Hr).
+    assert (HinL : In L (chains rs)) by (rewrite Hls; apply in_or_app; right; now left).
+    destruct (core_chain_facts L HinL) as (L0 & ns & -> & H1 & H2 & H3 & H4 & H5).
+    destruct (chain_opt_params (cores_of base rs) L0 ns q m rem ps H1 H2 H3 H4 H5 (conj Hb Hkb) HS)
+      as (e & He & Hsp).
+    exists (map (flat_map gen_path) pre), (flat_map gen_path (L0 ++ map SOpt ns)),
+           (map (flat_map gen_path) post), e.
+    split; [rewrite gen_routes_chains, Hls, map_app; reflexivity|].
+    split; [|repeat split; assumption].
+    apply Forall_forall. intros g Hg. apply in_map_iff in Hg. destruct Hg as (Lg & <- & HLg).
+    assert (HinLg : In Lg (chains rs)) by (rewrite Hls; apply in_or_app; now left).
+    destruct (core_chain_facts Lg HinLg) as (G0 & gs & -> & G1 & G2 & G3 & G4 & G5).
+    destruct (chain_opt (cores_of base rs) G0 gs q G1 G2 G3 G4 G5 (conj Hb Hkb)) as [Gnp Gg].
+    unfold entry_good. rewrite <- Gg.
+    rewrite Forall_forall in Hpre. destruct (Hpre _ HLg) as [Hg|Hp]; [exact Hg|now elim Gnp].
+  Qed.
+End Core.
+
+(** ================================================================================
+    The theorems, for the refined known classes, with or without base path
+    ================================================================================ *)
+(** the reference binds exactly what the pattern consumer binds *)
+Lemma flat_match_of_spre :
+  forall e p ps r, starts_with_slash p = true -> has_dslash p = false ->
+    spre (toks e) p = Some (ps, r) -> rem_ok r = true -> flat_match e p = Some ps.
+Proof.
+  intros e p ps r Hs Hd Hsp Hr. unfold flat_match, pattern.
+  destruct (toks e) as [|t ts] eqn:Et.
+  - cbn [spre] in Hsp. injection Hsp as <- <-.
+    destruct p as [|c p]; [discriminate|]. cbn [starts_with_slash] in Hs.
+    apply N.eqb_eq in Hs. subst c.
+    destruct p as [|d p]; [reflexivity|]. cbn [rem_ok] in Hr. discriminate.
+  - unfold strict. rewrite Hsp.
+    apply rem_ok_cases in Hr. destruct Hr as [->| ->]; [reflexivity|].
+    destruct (spre_suffix _ _ _ _ Hsp) as [a ->].
+    rewrite ends_with_slash_snoc, removelast_last. now rewrite (spre_unsnoc _ _ _ Hsp).
+Qed.
+
+Lemma rmf_nobase : forall f p, starts_with_slash p = true -> has_dslash p = false ->
+  route_matches_flat f p = entry_good p f.
+Proof.
+  intros f p Hs Hd. unfold route_matches_flat, entry_good. apply existsb_ext_in.
+  intros e _. now apply flat_match_spre.
+Qed.
+
+Lemma spre_base : forall b' e p1, ends_with_slash (slash :: b') = false ->
+  spre (toks (PStatic (slash :: b') :: e)) (slash :: p1)
+  = if is_prefix b' p1 then spre (toks e) (skipn (length b') p1) else None.
+Proof.
+  intros b' e p1 Hbe.
+  change (toks (PStatic (slash :: b') :: e)) with (seg_toks (PStatic (slash :: b')) ++ toks e).
+  unfold seg_toks, sep, needs_sep. rewrite N.eqb_refl. cbn [negb app].
+  rewrite (spre_lit_gen (slash :: b') (toks e) (slash :: p1) Hbe).
+  rewrite is_prefix_cons, N.eqb_refl. reflexivity.
+Qed.
+
+Lemma rmf_base : forall b' f p1,
+  ends_with_slash (slash :: b') = false -> has_dslash (slash :: p1) = false ->
+  route_matches_flat (PStatic (slash :: b') :: f) (slash :: p1)
+  = if is_prefix b' p1 then entry_good (skipn (length b') p1) f else false.
+Proof.
+  intros b' f p1 Hbe Hds. unfold route_matches_flat, entry_good.
+  cbn [expand_optionals]. rewrite existsb_map.
+  transitivity (existsb (fun e => if is_prefix b' p1 then flat_good (skipn (length b') p1) e else false)
+                        (expand_optionals f)).
+  - apply existsb_ext_in. intros e _.
+    rewrite flat_match_spre; [|reflexivity|exact Hds].
+    rewrite (spre_base b' e p1 Hbe). unfold flat_good. destruct (is_prefix b' p1); reflexivity.
+  - destruct (is_prefix b' p1); [reflexivity|apply existsb_const_false].
+Qed.
+
+(** shape of a tame base and of the path below it *)
+Lemma base_reduce :
+  forall b rs p,
+    starts_with_slash p = true -> base_untame b = false -> has_dslash p = false ->
+    kb (cores_of (Some b) rs) p = false ->
+    exists b' p1,
+      b = slash :: b' /\ p = slash :: p1 /\ ends_with_slash (slash :: b') = false
+      /\ strip_base (Some b) p
+         = (if is_prefix b' p1 then Some (skipn (length b') p1) else None)
+      /\ (is_prefix b' p1 = true ->
+          at_boundary (skipn (length b') p1) = true
+          /\ kb (cores_of (Some b) rs) (skipn (length b') p1) = false).
+Proof.
+  intros b rs p Hsl Hbase Hds Hkb.
+  unfold base_untame in Hbase.
+  apply orb_false_iff in Hbase. destruct Hbase as [Hbase Hbd].
+  apply orb_false_iff in Hbase. destruct Hbase as [Hbs Hbe]. apply negb_false_iff in Hbs.
+  destruct b as [|c0 b']; [discriminate|]. cbn [starts_with_slash] in Hbs.
+  apply N.eqb_eq in Hbs. subst c0.
+  destruct p as [|c0 p1]; [discriminate|]. cbn [starts_with_slash] in Hsl.
+  apply N.eqb_eq in Hsl. subst c0.
+  exists b', p1. split; [reflexivity|]. split; [reflexivity|]. split; [exact Hbe|].
+  assert (Hb'ns : starts_with_slash b' = false).
+  { destruct b' as [|d b']; [reflexivity|]. cbn [starts_with_slash].
+    rewrite has_dslash_cons2, N.eqb_refl in Hbd. cbn [andb] in Hbd.
+    apply orb_false_iff in Hbd. now destruct Hbd. }
+  assert (Hp1ns : starts_with_slash p1 = false).
+  { destruct p1 as [|d p1]; [reflexivity|]. cbn [starts_with_slash].
+    rewrite has_dslash_cons2, N.eqb_refl in Hds. cbn [andb] in Hds.
+    apply orb_false_iff in Hds. now destruct Hds. }
+  split.
+  - unfold strip_base. cbn [starts_with_slash]. rewrite N.eqb_refl.
+    cbn [trim_start_slashes]. rewrite N.eqb_refl.
+    now rewrite (trim_start_slashes_id _ Hb'ns), (trim_start_slashes_id _ Hp1ns), strip_prefix_is_prefix.
+  - intros Ep. set (q := skipn (length b') p1).
+    assert (Hpq : slash :: p1 = (slash :: b') ++ q).
+    { cbn [app]. f_equal. unfold q. now apply is_prefix_split. }
+    destruct (last_slash_split (slash :: b')) as (l1 & l2 & Hl & Hl2).
+    { cbn [has_slash existsb]. now rewrite N.eqb_refl. }
+    assert (Hl2ne : l2 <> []).
+    { intros ->. rewrite Hl in Hbe. rewrite ends_with_slash_snoc in Hbe. discriminate. }
+    assert (Hin2 : In l2 (cores_of (Some (slash :: b')) rs)).
+    { unfold cores_of. apply filter_In. split.
+      - apply in_or_app. right. unfold split_comps. rewrite Hl. now apply split_last.
+      - unfold usable_core. destruct l2; [now elim Hl2ne|]. now rewrite Hl2. }
+    split.
+    + assert (Hkb2 : kb (cores_of (Some (slash :: b')) rs) (l1 ++ slash :: (l2 ++ q)) = false).
+      { replace (l1 ++ slash :: l2 ++ q) with (slash :: p1); [exact Hkb|].
+        rewrite Hpq, Hl, <- app_assoc. reflexivity. }
+      apply kb_at in Hkb2.
+      pose proof (existsb_false_in _ _ _ _ Hkb2 Hin2) as Hbad. unfold bad_at in Hbad.
+      rewrite is_prefix_app, skipn_app_len in Hbad. cbn [andb] in Hbad.
+      destruct q as [|d q']; [reflexivity|]. cbn [at_boundary]. now apply negb_false_iff in Hbad.
+    + rewrite Hpq in Hkb. now apply kb_suffix in Hkb.
+Qed.
+
+Lemma known_class_parts : forall base rs p, known_class base rs p = false ->
+  kb (cores_of base rs) p = false
+  /\ existsb slash_static_flat (gen_routes rs) = false
+  /\ match base with Some b => base_untame b = false | None => True end
+  /\ k_optional rs = false /\ has_dslash p = false.
+Proof.
+  intros base rs p Hk. unfold known_class in Hk.
+  apply orb_false_iff in Hk. destruct Hk as [Hk Hds].
+  apply orb_false_iff in Hk. destruct Hk as [Hk Hopt].
+  apply orb_false_iff in Hk. destruct Hk as [Hkb Hss].
+  unfold k_slash_static in Hss. apply orb_false_iff in Hss. destruct Hss as [Hss Hbase].
+  repeat split; auto. destruct base; auto.
+Qed.
+
+Theorem match_iff_flat_fine :
+  forall base rs p,
+    wf_tree rs = true -> wf_routes rs = true -> starts_with_slash p = true ->
+    known_class base rs p = false ->
+    matches base rs p = flat_any base rs p /\ match_route base rs p <> MPanic.
+Proof.
+  intros base rs p Hwt Hwf Hsl Hk.
+  destruct (known_class_parts _ _ _ Hk) as (Hkb & Hss & Hbase & Hopt & Hds).
+  destruct base as [b|].
+  - destruct (base_reduce b rs p Hsl Hbase Hds Hkb) as (b' & p1 & -> & -> & Hbe & Hstrip & Hq).
+    match goal with |- _ = ?X /\ _ =>
+    assert (Hflat : X
+                    = if is_prefix b' p1 then existsb (entry_good (skipn (length b') p1)) (gen_routes rs)
+                      else false) end.
+    { unfold flat_any, table. rewrite existsb_map.
+      rewrite (existsb_ext_in _ _ (fun f => if is_prefix b' p1
+                                            then entry_good (skipn (length b') p1) f else false)).
+      - destruct (is_prefix b' p1); [reflexivity|apply existsb_const_false].
+      - intros f _. now apply rmf_base. }
+    rewrite Hflat. unfold matches, match_route. rewrite Hstrip.
+    destruct (is_prefix b' p1) eqn:Ep; [|split; [reflexivity|discriminate]].
+    destruct (Hq eq_refl) as [Hbq Hkq].
+    destruct (core_match_opt (Some (slash :: b')) rs _ Hwt Hwf Hss Hopt Hbq Hkq) as [Hnp Hyes].
+    rewrite <- Hyes.
+    pose proof (siblings_chains_ok rs (route_ok_forest rs Hopt Hwt) 0%nat (skipn (length b') p1)) as Hs.
+    destruct (match_siblings rs 0 (skipn (length b') p1)) as [| |ch ps rem];
+      cbn [oproj is_yes] in *.
+    + now elim Hnp.
+    + split; [reflexivity|discriminate].
+    + assert (rem_ok rem = true) as -> by (eapply first_chain_rem_ok; symmetry; exact Hs).
+      split; [reflexivity|discriminate].
+  - assert (Hbq : at_boundary p = true) by (destruct p; [discriminate|exact Hsl]).
+    destruct (core_match_opt None rs p Hwt Hwf Hss Hopt Hbq Hkb) as [Hnp Hyes].
+    assert (Hflat : flat_any None rs p = existsb (entry_good p) (gen_routes rs)).
+    { unfold flat_any, table. apply existsb_ext_in. intros f _. now apply rmf_nobase. }
+    rewrite Hflat, <- Hyes. unfold matches, match_route, strip_base.
+    pose proof (siblings_chains_ok rs (route_ok_forest rs Hopt Hwt) 0%nat p) as Hs.
+    destruct (match_siblings rs 0 p) as [| |ch ps rem]; cbn [oproj is_yes] in *.
+    + now elim Hnp.
+    + split; [reflexivity|discriminate].
+    + assert (rem_ok rem = true) as -> by (eapply first_chain_rem_ok; symmetry; exact Hs).
+      split; [reflexivity|discriminate].
+Qed.
+
+(** the first table entry (in declaration order) that matches the path wins, and the
+    returned parameters are exactly what the reference binds for one of its expansions *)
+Theorem first_entry_wins_params :
+  forall base rs p ch ps,
+    wf_tree rs = true -> wf_routes rs = true -> starts_with_slash p = true ->
+    known_class base rs p = false ->
+    match_route base rs p = MYes ch ps ->
+    exists pre f post e,
+      table base (gen_routes rs) = pre ++ f :: post
+      /\ Forall (fun g => route_matches_flat g p = false) pre
+      /\ In e (expand_optionals f)
+      /\ flat_match e p = Some ps.
+Proof.
+  intros base rs p ch ps Hwt Hwf Hsl Hk Hm.
+  destruct (known_class_parts _ _ _ Hk) as (Hkb & Hss & Hbase & Hopt & Hds).
+  destruct base as [b|].
+  - destruct (base_reduce b rs p Hsl Hbase Hds Hkb) as (b' & p1 & -> & -> & Hbe & Hstrip & Hq).
+    unfold match_route in Hm. rewrite Hstrip in Hm.
+    destruct (is_prefix b' p1) eqn:Ep; [|discriminate].
+    destruct (Hq eq_refl) as [Hbq Hkq].
+    destruct (match_siblings rs 0 (skipn (length b') p1)) as [| |ch1 ps1 rem] eqn:Em; try discriminate.
+    destruct (rem_ok rem) eqn:Er; [|discriminate]. inversion Hm; subst.
+    destruct (core_first_wins (Some (slash :: b')) rs _ Hwt Hwf Hss Hopt Hbq Hkq _ _ _ Em)
+      as (pre & f & post & e & Hg & Hpre & He & Hsp & _).
+    exists (map (cons (PStatic (slash :: b'))) pre), (PStatic (slash :: b') :: f),
+           (map (cons (PStatic (slash :: b'))) post), (PStatic (slash :: b') :: e).
+    split; [unfold table; rewrite Hg, map_app; reflexivity|]. split; [|split].
+    + apply Forall_forall. intros g Hin. apply in_map_iff in Hin. destruct Hin as (g0 & <- & Hg0).
+      rewrite (rmf_base b' g0 p1 Hbe Hds), Ep. rewrite Forall_forall in Hpre. now apply Hpre.
+    + cbn [expand_optionals]. now apply in_map.
+    + apply (flat_match_of_spre _ _ _ rem); auto.
+      now rewrite (spre_base b' e p1 Hbe), Ep.
+  - assert (Hbq : at_boundary p = true) by (destruct p; [discriminate|exact Hsl]).
+    unfold match_route, strip_base in Hm.
+    destruct (match_siblings rs 0 p) as [| |ch1 ps1 rem] eqn:Em; try discriminate.
+    destruct (rem_ok rem) eqn:Er; [|discriminate]. inversion Hm; subst.
+    destruct (core_first_wins None rs p Hwt Hwf Hss Hopt Hbq Hkb _ _ _ Em)
+      as (pre & f & post & e & Hg & Hpre & He & Hsp & _).
+    exists pre, f, post, e. split; [exact Hg|]. split; [|split; [exact He|]].
+    + eapply Forall_impl; [|exact Hpre]. intros g Hgg. now rewrite rmf_nobase.
+    + now apply (flat_match_of_spre _ _ _ rem).
+Qed.
+
+(** ================================================================================
+    build_then_match for any table: a path built from an expansion of route [i] matches;
+    the winner is the first entry whose pattern matches; if no earlier entry matches and
+    route [i] has no optional, the returned parameters are the given values
+    ================================================================================ *)
+Lemma wf_flat_expand : forall f e, wf_flat f = true -> In e (expand_optionals f) -> wf_flat e = true.
+Proof.
+  induction f as [|x f IH]; intros e Hw He.
+  - cbn in He. destruct He as [<-|[]]. reflexivity.
+  - destruct x; cbn [expand_optionals wf_flat] in *.
+    + apply in_map_iff in He. destruct He as (e0 & <- & He0). cbn [wf_flat]. auto.
+    + apply andb_prop in Hw. destruct Hw as [Hn Hw].
+      apply in_map_iff in He. destruct He as (e0 & <- & He0). cbn [wf_flat]. rewrite Hn. cbn. auto.
+    + apply andb_prop in Hw. destruct Hw as [Hn Hw]. apply in_app_or in He. destruct He as [He|He].
+      * apply in_map_iff in He. destruct He as (e0 & <- & He0). cbn [wf_flat]. rewrite Hn. cbn. auto.
+      * auto.
+    + apply andb_prop in Hw. destruct Hw as [Hn Hw]. destruct f; [|discriminate].
+      cbn in He. destruct He as [<-|[]]. cbn [wf_flat]. now rewrite Hn.
+    + apply in_map_iff in He. destruct He as (e0 & <- & He0). cbn [wf_flat]. auto.
+Qed.
+
+Lemma trivial_no_popt : forall t, forallb trivial_pseg t = true -> existsb is_popt t = false.
+Proof.
+  induction t as [|x t IH]; [reflexivity|]. cbn [forallb existsb]. intros H.
+  apply andb_prop in H. destruct H as [Hx Ht]. rewrite (IH Ht), orb_false_r.
+  destruct x as [[|? ?]| | | |]; try discriminate; reflexivity.
+Qed.
+
+Lemma ssf_expand : forall f e, slash_static_flat f = false -> In e (expand_optionals f) ->
+  slash_static_flat e = false.
+Proof.
+  induction f as [|x f IH]; intros e Hs He.
+  - cbn in He. destruct He as [<-|[]]. reflexivity.
+  - destruct x; cbn [expand_optionals slash_static_flat] in *.
+    + apply in_map_iff in He. destruct He as (e0 & <- & He0). cbn [slash_static_flat].
+      apply orb_false_iff in Hs. destruct Hs as [Hs Hrest].
+      apply orb_false_iff in Hs. destruct Hs as [Htl Hsl].
+      rewrite Htl, (IH _ Hrest He0), orb_false_r. cbn [orb].
+      destruct (bytes_eqb s [slash]); [|reflexivity]. cbn [andb] in *.
+      apply negb_false_iff in Hsl.
+      rewrite (expand_no_opt _ (trivial_no_popt _ Hsl)) in He0. destruct He0 as [<-|[]].
+      now rewrite Hsl.
+    + apply in_map_iff in He. destruct He as (e0 & <- & He0). cbn [slash_static_flat]. auto.
+    + apply in_app_or in He. destruct He as [He|He]; [|auto].
+      apply in_map_iff in He. destruct He as (e0 & <- & He0). cbn [slash_static_flat]. auto.
+    + apply in_map_iff in He. destruct He as (e0 & <- & He0). cbn [slash_static_flat]. auto.
+    + apply in_map_iff in He. destruct He as (e0 & <- & He0). cbn [slash_static_flat]. auto.
+Qed.
+
+Lemma build_path_spre :
+  forall e vals,
+    existsb is_popt e = false -> wf_flat e = true -> slash_static_flat e = false ->
+    vals_ok e vals ->
+    starts_with_slash (build_path e vals) = true
+    /\ exists r, spre (toks e) (build_path e vals) = Some (bindings e vals, r) /\ rem_ok r = true.
+Proof.
+  intros e vals Ho Hw Hs Hv.
+  destruct (build_spre e vals Ho Hw Hs Hv) as [Hbb Hbs].
+  unfold build_path. destruct (build e vals) as [|c q] eqn:Eb.
+  - split; [reflexivity|].
+    rewrite (build_nil_toks e vals Ho Hw Hv Eb) in *.
+    cbn [spre] in Hbs. injection Hbs as Hbn. rewrite <- Hbn.
+    exists [slash]. split; reflexivity.
+  - split; [exact Hbb|]. exists []. split; [exact Hbs|reflexivity].
+Qed.
+
+Definition built (base : option bytes) (e : list pseg) (vals : list bytes) : bytes :=
+  match base with
+  | Some b => b ++ build e vals
+  | None => build_path e vals
+  end.
+
+Lemma first_unique :
+  forall (A : Type) (P : A -> bool) l pre g post i fi,
+    l = pre ++ g :: post -> Forall (fun x => P x = false) pre -> P g = true ->
+    nth_error l i = Some fi -> P fi = true -> Forall (fun x => P x = false) (firstn i l) ->
+    g = fi.
+Proof.
+  intros A P l pre g post i fi -> Hpre Hg Hi Hfi Hfirst.
+  destruct (Nat.lt_trichotomy i (length pre)) as [Hlt|[Heq|Hgt]].
+  - rewrite nth_error_app1 in Hi by exact Hlt. apply nth_error_In in Hi.
+    rewrite Forall_forall in Hpre. rewrite (Hpre _ Hi) in Hfi. discriminate.
+  - subst i. rewrite nth_error_app2, Nat.sub_diag in Hi by lia. cbn in Hi. congruence.
+  - exfalso. rewrite Forall_forall in Hfirst.
+    assert (Hin : In g (firstn i (pre ++ g :: post))).
+    { rewrite firstn_app. apply in_or_app. right.
+      destruct (i - length pre)%nat as [|k] eqn:Ek; [lia|]. now left. }
+    rewrite (Hfirst _ Hin) in Hg. discriminate.
+Qed.
+
+Lemma nth_error_table : forall base flats i f,
+  nth_error flats i = Some f ->
+  nth_error (table base flats) i
+  = Some (match base with Some b => PStatic b :: f | None => f end).
+Proof.
+  intros [b|] flats i f H; cbn [table]; [|exact H].
+  now rewrite nth_error_map, H.
+Qed.
+
+Theorem build_then_match_any :
+  forall base rs i f e vals p,
+    wf_tree rs = true -> wf_routes rs = true ->
+    nth_error (gen_routes rs) i = Some f ->          (* route i of the table ... *)
+    In e (expand_optionals f) ->                      (* ... one of its expansions *)
+    vals_ok e vals -> p = built base e vals ->
+    known_class base rs p = false ->
+    exists ch ps,
+      match_route base rs p = MYes ch ps
+      /\ (exists pre g post e',
+            table base (gen_routes rs) = pre ++ g :: post
+            /\ Forall (fun x => route_matches_flat x p = false) pre
+            /\ In e' (expand_optionals g) /\ flat_match e' p = Some ps)
+      /\ (existsb is_popt f = false ->
+          Forall (fun x => route_matches_flat x p = false) (firstn i (table base (gen_routes rs))) ->
+          ps = bindings f vals).
+Proof.
+  intros base rs i f e vals p Hwt Hwf Hi He Hv Hp Hk.
+  destruct (known_class_parts _ _ _ Hk) as (Hkb & Hss & Hbase & Hopt & Hds).
+  assert (Hinf : In f (gen_routes rs)) by (eapply nth_error_In; eauto).
+  assert (Hfw : wf_flat f = true)
+    by (unfold wf_routes in Hwf; rewrite forallb_forall in Hwf; now apply Hwf).
+  assert (Hfs : slash_static_flat f = false) by (eapply existsb_false_in; eauto).
+  assert (Heo : existsb is_popt e = false).
+  { destruct (expand_optionals_spec f) as [Hall _]. rewrite Forall_forall in Hall. now apply Hall. }
+  pose proof (wf_flat_expand _ _ Hfw He) as Hew.
+  pose proof (ssf_expand _ _ Hfs He) as Hes.
+  (* the path starts with '/', and entry i of the table matches it *)
+  assert (Hsl : starts_with_slash p = true
+                /\ exists fi, nth_error (table base (gen_routes rs)) i = Some fi
+                              /\ route_matches_flat fi p = true
+                              /\ (existsb is_popt f = false ->
+                                  forall e', In e' (expand_optionals fi) ->
+                                  forall ps, flat_match e' p = Some ps -> ps = bindings f vals)).
+  { destruct base as [b|].
+    - (* with base *)
+      unfold base_untame in Hbase.
+      apply orb_false_iff in Hbase. destruct Hbase as [Hbase Hbd].
+      apply orb_false_iff in Hbase. destruct Hbase as [Hbs Hbe]. apply negb_false_iff in Hbs.
+      destruct b as [|c0 b']; [discriminate|]. cbn [starts_with_slash] in Hbs.
+      apply N.eqb_eq in Hbs. subst c0.
+      cbn [built app] in Hp. subst p. split; [reflexivity|].
+      exists (PStatic (slash :: b') :: f).
+      split; [exact (nth_error_table (Some (slash :: b')) _ _ _ Hi)|].
+      destruct (build_spre e vals Heo Hew Hes Hv) as [_ Hbs].
+      assert (Hsp : forall e0, spre (toks (PStatic (slash :: b') :: e0)) (slash :: b' ++ build e vals)
+                               = spre (toks e0) (build e vals)).
+      { intros e0. rewrite (spre_base b' e0 _ Hbe), is_prefix_app, skipn_app_len. reflexivity. }
+      split.
+      + rewrite (rmf_base b' f _ Hbe Hds), is_prefix_app, skipn_app_len.
+        unfold entry_good. apply existsb_exists. exists e. split; [exact He|].
+        unfold flat_good. now rewrite Hbs.
+      + intros Hfo e' He' ps Hfm.
+        rewrite (expand_no_opt _ Hfo) in He. destruct He as [<-|[]].
+        cbn [expand_optionals] in He'. rewrite (expand_no_opt _ Hfo) in He'.
+        destruct He' as [<-|[]].
+        rewrite (flat_match_of_spre _ _ (bindings f vals) []) in Hfm; auto; [congruence|].
+        now rewrite Hsp.
+    - (* without base *)
+      cbn [built] in Hp. subst p.
+      destruct (build_path_spre e vals Heo Hew Hes Hv) as [Hs (r & Hsp & Hr)].
+      split; [exact Hs|]. exists f. split; [exact (nth_error_table None _ _ _ Hi)|]. split.
+      + rewrite (rmf_nobase _ _ Hs Hds). unfold entry_good. apply existsb_exists.
+        exists e. split; [exact He|]. unfold flat_good. now rewrite Hsp.
+      + intros Hfo e' He' ps Hfm.
+        rewrite (expand_no_opt _ Hfo) in He. destruct He as [<-|[]].
+        rewrite (expand_no_opt _ Hfo) in He'. destruct He' as [<-|[]].
+        rewrite (flat_match_of_spre _ _ (bindings f vals) r) in Hfm; auto. congruence. }
+  destruct Hsl as [Hsl (fi & Hfi & Hfim & Hfip)].
+  (* hence the table matches, hence the router does *)
+  destruct (match_iff_flat_fine base rs p Hwt Hwf Hsl Hk) as [Hiff Hnp].
+  assert (Hfa : flat_any base rs p = true).
+  { unfold flat_any. apply existsb_exists. exists fi. split; [eapply nth_error_In; eauto|exact Hfim]. }
+  rewrite Hfa in Hiff. unfold matches in Hiff.
+  destruct (match_route base rs p) as [| |ch ps] eqn:Em; try discriminate.
+  exists ch, ps. split; [reflexivity|].
+  destruct (first_entry_wins_params base rs p ch ps Hwt Hwf Hsl Hk Em)
+    as (pre & g & post & e' & Htab & Hpre & He' & Hfm).
+  split; [exists pre, g, post, e'; auto|].
+  intros Hfo Hfirst.
+  assert (Hg : route_matches_flat g p = true).
+  { unfold route_matches_flat. apply existsb_exists. exists e'. split; [exact He'|]. now rewrite Hfm. }
+  assert (g = fi) as -> by (eapply (first_unique _ (fun x => route_matches_flat x p)); eauto).
+  eapply Hfip; eauto.
+Qed.
+
+(** ---- the three sub-classes of F-C14-c are each inhabited by a genuine disagreement ---- *)
+(* an optional followed by another segment of its tuple: /a/b against (:x?, "a", :y?) *)
+Theorem refuted_optional_not_last :
+  exists rs p, wf_tree rs = true /\ wf_routes rs = true /\ starts_with_slash p = true
+               /\ k_optional rs = true /\ matches None rs p = false /\ flat_any None rs p = true.
+Proof.
+  exists [Route (STuple [SOpt [120]; SStatic [97]; SOpt [121]]) None], [47;97;47;98].
+  vm_compute. repeat split; reflexivity.
+Qed.
+
+(* an optional inside a nested tuple: the nested tuple is dropped as a whole by the back-off,
+   so /a/b (table entry /a/b) does not match (("a", :x?), "b") *)
+Theorem refuted_optional_nested_tuple :
+  exists rs p, wf_tree rs = true /\ wf_routes rs = true /\ starts_with_slash p = true
+               /\ k_optional rs = true /\ matches None rs p = false /\ flat_any None rs p = true.
+Proof.
+  exists [Route (STuple [STuple [SStatic [97]; SOpt [120]]; SStatic [98]]) None], [47;97;47;98].
+  vm_compute. repeat split; reflexivity.
+Qed.
+
+(* optionals in a route that has children: /q/a is in the table of (:x?, :y?) { "a" } *)
+Theorem refuted_optional_parent :
+  exists rs p, wf_tree rs = true /\ wf_routes rs = true /\ starts_with_slash p = true
+               /\ k_optional rs = true /\ matches None rs p = false /\ flat_any None rs p = true.
+Proof.
+  exists [Route (STuple [SOpt [120]; SOpt [121]]) (Some [Route (SStatic [97]) None])], [47;113;47;97].
+  vm_compute. repeat split; reflexivity.
+Qed.
+
+(** the hypotheses of the theorems are satisfiable with optionals present *)
+Example match_iff_flat_fine_nontrivial :
+  let rs := [Route (SStatic [47;98]) (Some [Route (STuple [SStatic [112]; SOpt [120]; SOpt [121]]) None]);
+             Route (SOpt [122]) None] in
+  let p := [47;98;47;112;47;52] in
+  wf_tree rs = true /\ wf_routes rs = true /\ known_class None rs p = false
+  /\ k_optional_any rs = true
+  /\ match_route None rs p = MYes [(0%nat, [47;98]); (1%nat, [47;112;47;52])] [([120], [52])]
+  /\ flat_any None rs p = true.
+Proof. cbv zeta. split; [|split; [|split; [|split; [|split]]]]; vm_compute; reflexivity. Qed.
